@@ -1,4 +1,5 @@
 import OAuth2Model.Proofs.Serialize
+import OAuth2Model.Proofs.JsonPrint
 import OAuth2Model.Props.C06
 import OAuth2Model.Props.C14
 import OAuth2Model.Props.C15
@@ -11,9 +12,11 @@ response families and ANY extension type whose serialiser writes only non-RFC na
 (`ExtOk`; instances: the empty extension and the harness' `IdExt`).
 
 "Same JSON TEXT" follows because the text is `Json.print (ser v)` for the deterministic printer `Json.print`
-(= `serde_json::to_string`): equal trees print equally (`C16_same_text`).  That `Json.print` IS serde_json's printer,
-and that `Json.parsePrefix (Json.print t) = (t, [])`, is VALIDATED by op `rt` on every case (the driver compares
-`print (ser (dec doc))` with the implementation's `to_string` byte for byte and re-parses it) — trusted, not proved.
+(= `serde_json::to_string`): equal trees print equally (`C16_same_text`).  That the model's parser reads back what the
+model's printer writes is PROVED for all well-formed trees (`Json.parsePrefix_print`, Proofs/JsonPrint.lean) and lifted
+to the four families in `C16_text_roundtrip`.  What stays trusted — and is validated by op `rt` on every case, the
+driver comparing `print (ser (dec doc))` with the implementation's `to_string` byte for byte — is that `Json.print` IS
+serde_json's printer and `Json.parsePrefix` IS its parser.
 
 The values in the model carry one field per accessor, so `dec (ser v) = some v` says that EVERY accessor of the
 re-read value agrees with the original.
@@ -423,6 +426,61 @@ theorem C16_field_order (a r : Bytes) (t : TokenType) (e : Nat) (sc : List Bytes
           member Token.kSession (u64J x.session)) := by
   cases hs : x.session <;> simp [serToken, tokenKeys, tokenVals, fieldsOf, member, u64J, strJ, scopeJ, serIdExt, idKeys, hs]
 
+/-! ### Text level -/
+
+theorem fieldsOf_known (sh : Shape) (keys : List Bytes) (vals : List (Option J)) (hk : keysAt sh keys 0 = true) :
+    ∀ m ∈ fieldsOf keys vals, sh.known m.1 = true := by
+  intro m hm
+  have := known_fieldsOf sh keys vals 0 hk m hm
+  cases h : sh.slotOf m.1 <;> simp_all [Shape.known]
+
+/-- **Text round trip.** For a canonical value whose serialisation is a well-formed tree (`Json.wf`: strings valid
+UTF-8, integers within u64 / i64 — true of every Rust value — and nesting ≤ 127), parsing the TEXT `print (ser v)` as a
+document (`serde_json::from_slice`, and the HTTP path since fix 896fd71) yields `v` again; so the second serialisation
+is the same text, and so on.  No trust in the printer / parser PAIR is left: `Json.parsePrefix_print` is a theorem. -/
+theorem C16_text_roundtrip :
+    (∀ {EF : Type} (ext : Bytes → Bytes) (serEF : EF → Members) (decEF : Members → Option EF),
+      ExtOk Token.tokenShape serEF decEF → ∀ v : Token.TokenResp EF, CanonToken ext v →
+      wf (serToken serEF v) = true → jdepth (serToken serEF v) ≤ maxDepth →
+      Token.decodeTokenDoc ext decEF (print (serToken serEF v)) = some v) ∧
+    (∀ {EF : Type} (ext : Bytes → Bytes) (rg : Intro.TsRange), rg.hi ≤ Intro.i64Max →
+      ∀ (serEF : EF → Members) (decEF : Members → Option EF), ExtOk Intro.introShape serEF decEF →
+      ∀ v : Intro.IntroResp EF, CanonIntro ext rg v →
+      wf (serIntro serEF v) = true → jdepth (serIntro serEF v) ≤ maxDepth →
+      Intro.decodeIntroDoc ext rg decEF (print (serIntro serEF v)) = some v) ∧
+    (∀ {P EF : Type} [DecidableEq P] (parse : Bytes → Option P) (serEF : EF → Members) (decEF : Members → Option EF),
+      ExtOk DevAuth.devShape serEF decEF → ∀ v : DevAuth.DevResp P EF, CanonDev parse v →
+      wf (serDev serEF v) = true → jdepth (serDev serEF v) ≤ maxDepth →
+      DevAuth.decodeDevDoc parse decEF (print (serDev serEF v)) = some v) ∧
+    (∀ {C : Type} (fromStr : Bytes → C) (asRef : C → Bytes) (e : ErrResp.ErrorResp C), CanonErr fromStr asRef e →
+      wf (serError asRef e) = true →
+      ErrResp.decodeErrorDoc fromStr (print (serError asRef e)) = some e) := by
+  refine ⟨?_, ?_, ?_, ?_⟩
+  · intro EF ext s d hx v hc hw hd
+    simp only [Token.decodeTokenDoc, parseDocument_print _ hw hd]
+    exact roundtrip_token ext s d hx v hc
+  · intro EF ext rg hrg s d hx v hc hw hd
+    simp only [Intro.decodeIntroDoc, parseDocument_print _ hw hd]
+    exact roundtrip_intro ext rg hrg s d hx v hc
+  · intro P EF _ parse s d hx v hc hw hd
+    simp only [DevAuth.decodeDevDoc, parseDocument_print _ hw hd]
+    exact roundtrip_dev parse s d hx v hc
+  · intro C f a e hc hw
+    have hknown := fieldsOf_known ErrResp.errShape errKeys (errVals a e) err_keysAt
+    have hw' : wfMembers (fieldsOf errKeys (errVals a e)) = true := by simpa [serError, wf] using hw
+    have hdepth : depthMembers (fieldsOf errKeys (errVals a e)) + 1 ≤ maxDepth := by
+      obtain ⟨c, d, u⟩ := e
+      cases d <;> cases u <;> simp [errKeys, errVals, fieldsOf, member, strJ, depthMembers, jdepth, maxDepth]
+    have hp := parseStructPrefix_print ErrResp.errShape.known _ hknown hw' hdepth
+    have hp' : parseStructPrefix ErrResp.errShape.known (print (serError a e)) = some (serError a e, []) := hp
+    simp only [ErrResp.decodeErrorDoc, hp', onlyWs, List.all_nil, if_true]
+    exact roundtrip_err f a e hc
+
+/-- non-vacuity of the text-level hypotheses on the hand-built values below -/
+example : wf (.obj [(lit "a", .arr [.str [0xC3, 0xA9], .num (.u 18446744073709551615), .num (.i (-9223372036854775808)), .null])]) = true := by
+  decide +kernel
+example : wf (.num (.u 18446744073709551616)) = false ∧ wf (.str [0xFF]) = false ∧ wf (.num .f) = false := by decide +kernel
+
 /-! ### The extension instances used by op `rt` -/
 
 theorem extOk_id_token : ExtOk Token.tokenShape serIdExt Token.decIdExt := extOk_id _ (by decide) (by decide)
@@ -477,11 +535,22 @@ example : print (serDev serEmpty fullDev) =
 example : DevAuth.decodeDev (C19.okOnly [lit "HTTPS://V.example"]) Token.decEmpty (serDev serEmpty fullDev) = some fullDev :=
   roundtrip_dev _ _ _ (extOk_empty _) fullDev (by decide)
 
+/-- the text-level theorem applies to them: well-formed, nesting 2 -/
+example : wf (serIntro serIdExt fullIntro) = true ∧ jdepth (serIntro serIdExt fullIntro) = 2 := by decide +kernel
+example : Intro.decodeIntroDoc id Intro.chronoRange Token.decIdExt (print (serIntro serIdExt fullIntro)) = some fullIntro :=
+  C16_text_roundtrip.2.1 id Intro.chronoRange (by decide) _ _ extOk_id_intro fullIntro (by decide) (by decide +kernel)
+    (by decide +kernel)
+example : DevAuth.decodeDevDoc (C19.okOnly [lit "HTTPS://V.example"]) Token.decEmpty (print (serDev serEmpty fullDev)) = some fullDev :=
+  C16_text_roundtrip.2.2.1 _ _ _ (extOk_empty _) fullDev (by decide) (by decide +kernel) (by decide +kernel)
+
 end C16
 
 #print axioms C16.C16_roundtrip
 #print axioms C16.C16_idempotent
 #print axioms C16.C16_same_text
+#print axioms C16.C16_text_roundtrip
+#print axioms Json.parsePrefix_print
+#print axioms Json.parseStructPrefix_print
 #print axioms C16.C16_parsed_canonical
 #print axioms C16.C16_parsed_roundtrip
 #print axioms C16.C16_none_omitted
